@@ -17,7 +17,7 @@ REGISTERED = {
             "The real trzszBuffer is compared, operation by operation, with a one-cursor reference parser: exhaustively for all short streams x all segmentations x all short operation sequences, and for long random protocol-shaped streams fed incrementally where every completable read must return before more input is supplied.",
             "reference parser is the specification; timeouts not exercised here", "DESIGN.md 5/C03"),
     "C04": ("runtime monitoring: round-trip and streaming differential over generated tables/payloads/split points + online wire-tap invariant on real binary uploads",
-            "All byte pairs under both built-in tables, seeded payloads under random announced tables, every streaming chain split arbitrarily (also between leader and code) with and without zstd, rejection of every undefined code, and a tap on real binary uploads asserting no protected byte between ACT and EXIT.",
+            "All byte pairs under both built-in tables, seeded payloads under random announced tables, every streaming chain split arbitrarily (also between leader and code) with and without zstd, rejection of every undefined code, the block-by-block receiver fed well-formed blocks in arbitrary pieces and blocks ending inside an escape pair (must be rejected), and a tap on real binary uploads asserting no protected byte between ACT and EXIT.",
             "random tables are well-formed (injective, codes outside the protected set)", "DESIGN.md 5/C04"),
     "C05": ("runtime monitoring: byte-exact transparency oracle on a live filter across stream classes, option sets and transfer histories",
             "A real TrzszFilter is fed seeded output/input streams (binary, escape soup, near-miss triggers, zmodem/OSC52 fragments, path-like input) under all option sets and chunkings, before and after histories of transfers ending in success, failure, refusal, cancel and stop, of cancelled drags and of drags that typed an upload command the remote did not know; both directions must come out byte-identical.",
@@ -46,8 +46,8 @@ REGISTERED = {
     "C13": ("runtime monitoring: unique-token conservation checker on both relay directions under yield-point schedule perturbation, race detector on",
             "Tagged tokens flow through a real relay in both directions around scripted handshakes (confirm, cancel, malformed ACT/CFG) with arrival patterns before/inside/straddling/after the ACT and CFG lines; every yield point of relay.go and buffer.go is delayed in turn; output must be input with only the consumed line replaced, token order preserved, nothing crossing sides. Family tmux runs the relay in tmux normal mode (fake tmux, client tty = FIFO) with a per-sink token oracle.",
             "schedules are those produced by the perturbation plans over the instrumented points", "DESIGN.md 5/C13"),
-    "C14": ("runtime monitoring: wire-tap comparison of ACT/CFG on both sides of each relay + end-to-end tree equality + standby/usable-again probes over transfer sequences",
-            "Transfers run through 1-2 real relays for client capability sets x server option sets; ACT' and CFG' are decoded from the taps and must only narrow; after every ending the relay must be in standby, transparent, and the next transfer must work.",
+    "C14": ("runtime monitoring: wire-tap comparison of ACT/CFG on both sides of each relay + end-to-end tree equality + standby/usable-again probes over transfer sequences; scripted-ends differential (relayed vs direct configuration) around one real relay",
+            "Transfers run through 1-2 real relays for client capability sets x server option sets; ACT' and CFG' are decoded from the taps and must only narrow; after every ending the relay must be in standby, transparent, and the next transfer must work. A second family puts one real relay between scripted ends (Windows-newline client, Windows server, protocol 1..9, any binary/dir/fork set, seeded CFG, six endings, tunnelled ACTs with protocol above 4): the client's resulting configuration must equal the one a direct connection gives apart from the relay's tmux additions.",
             "servers are conforming (escape table only with binary offered)", "DESIGN.md 5/C14"),
     "C15": ("runtime monitoring: producer/consumer differential on real archive reader/writer with tree-equality oracle, size conservation and descriptor-count monitor",
             "Real archiveFileReader output is checked against the announced size and fed to the real archiveFileWriter in every single cut / k-byte pieces / random cuts; the reconstructed tree must equal the source; shrinking sources must raise an error; open descriptors are sampled with GC disabled and must not grow with the entry count. Segments are handed to the writer in a reused scratch buffer that is scribbled on after each write.",
